@@ -37,6 +37,10 @@ func DefaultConfig() *Config {
 
 type targetPanic struct{ v Value }
 
+// fallThrough is returned by an intrinsic that declines a call: the real
+// body is executed instead.
+var fallThrough = &Opaque{kind: "fallthrough"}
+
 type fnInfo struct {
 	index map[ssa.Value]int
 	n     int
@@ -347,7 +351,10 @@ func (in *Interp) callSSA(caller *frame, fn *ssa.Function, args []Value, env []V
 		in.curFrame = fr
 		r := ix(in, fr, args)
 		in.curFrame = saved
-		return r
+		if r != Value(fallThrough) {
+			return r
+		}
+		delete(in.stubsSeen, fn.String())
 	}
 	if fn.Blocks == nil {
 		in.unsupported("no body for " + fn.String())
